@@ -259,6 +259,10 @@ fn answer(req: &str) -> String {
                             _ => "-".to_string(),
                         }
                     }
+                    Some(Operation::Load { ref index, .. }) => match pre.state().symbolize_and_eval(index) {
+                        Ok(i) => format!("l0x{:x}", i.value()),
+                        _ => "-".to_string(),
+                    },
                     _ => "-".to_string(),
                 };
                 out.push(format!("{} {} {}", loc_str(d2.location(), d2.program()), delta, win));
